@@ -78,6 +78,14 @@ def make_world(prefix, seq, rng, units=True):
             t['subs'] = rng.choice([['S'], ['P', 'S'], ['S', 'S'],
                                     ['S', 'F'], ['F', 'S', 'E'],
                                     ['P', 'S', 'P']])
+        if not skipcls and k not in ('skip_deco', 'skip_setup',
+                                     'setup_error') and \
+                rng.random() < 0.06:
+            # the test runs the test runner itself (in-process, output
+            # captured, a tree without layers): the inner run starts and
+            # stops tests of its own in the middle of this test
+            t['actions'] = [{'ph': 'body', 'do': 'nested_run',
+                             'argv': rng.choice([[], ['-v']])}]
         cur['tests'].append(t)
     nodes = []
     for ci, c in enumerate(classes):
@@ -211,6 +219,8 @@ def run_case(case):
     counters['unit_inner_tests'] = len({
         e['id'] for e in w.events if e['k'] == 'test.setUp' and
         '.UnitS.' in e['id']})
+    counters['tests_running_the_runner_themselves'] = sum(
+        1 for e in w.events if e['k'] == 'nested.run')
     counters['layers_that_got_their_per_test_hooks_in_setUp'] = sum(
         1 for e in w.events if e['k'] == 'layer.late_hooks')
     hook_layers = sum(1 for ls in spec['layers']
